@@ -17,7 +17,7 @@ CHECKS = {
          "Trusted: harness model. Probes outside the closure are not claimed.", "DESIGN.md section 5 C02"),
  "C03": (MC, "explicit-state enumeration: every FST x every (lower kind,key,upper kind,key) incl. inverted ranges and repeated bound calls vs model filter",
          "All bound combinations over a closed set of bound keys around the keys of every FST of the universes, through raw/Map/Set range builders; the stream must equal the model filter and stay ended.",
-         "'same kind twice' is read as the same method called twice.", "DESIGN.md section 5 C03"),
+         "'same kind of bound' is read as the same side (lower: ge/gt, upper: le/lt); the last call on a side wins with its own inclusivity.", "DESIGN.md section 5 C03"),
  "C04": (MC, "explicit-state enumeration: FST x bounds x every small table DFA with every sound hint assignment vs independent run of the table",
          "Every 1-2 (thorough 3) state DFA over two byte classes with every sound can_match assignment is searched (search and search_with_state) over every FST/bounds of the scope and compared with an independent run of the table incl. reported states; shipped automata, combinators, Levenshtein and regex-automata DFAs against specification predicates.",
          "Contract-abiding = deterministic, sound can_match, default accept_eof.", "DESIGN.md section 5 C04"),
